@@ -49,7 +49,9 @@ def shipped_text(name):
 
 
 def write_doc(text, tag="doc"):
-    path = os.path.join(tmpdir(), f"{tag}-{os.getpid()}.yaml")
+    # the scratch directory is private to the process, so the file name can
+    # be stable (it becomes the scenario name when none is given)
+    path = os.path.join(tmpdir(), f"{tag}.yaml")
     with open(path, "w") as f:
         f.write(text)
     return path
